@@ -222,54 +222,71 @@ func describeUnit(u *Unit) string {
 // localNamed finds the value of the source-level local variable `name` as of instruction `at`:
 // the latest DebugRef of that variable which dominates `at` (go/ssa GlobalDebug mode).
 func (fr *frame) localNamed(name string, at ssa.Instruction, st *State) *Val {
-	var best *ssa.DebugRef
+	type cand struct {
+		b      *ssa.BasicBlock
+		idx    int
+		v      ssa.Value
+		isAddr bool
+	}
+	var cands []cand
 	atBlock := at.Block()
 	for _, b := range fr.fn.Blocks {
 		if !(b == atBlock || b.Dominates(atBlock)) {
 			continue
 		}
-		for _, in := range b.Instrs {
+		for i, in := range b.Instrs {
 			if in == at && b == atBlock {
 				break
 			}
-			dr, ok := in.(*ssa.DebugRef)
-			if !ok {
-				continue
-			}
-			id, ok := dr.Expr.(*ast.Ident)
-			if !ok || id.Name != name {
-				continue
-			}
-			if _, seen := fr.vals[dr.X]; !seen {
-				if _, isConst := dr.X.(*ssa.Const); !isConst {
-					if _, isGlobal := dr.X.(*ssa.Global); !isGlobal {
+			switch x := in.(type) {
+			case *ssa.DebugRef:
+				id, ok := x.Expr.(*ast.Ident)
+				if !ok || id.Name != name {
+					continue
+				}
+				if _, seen := fr.vals[x.X]; !seen {
+					_, isConst := x.X.(*ssa.Const)
+					_, isGlobal := x.X.(*ssa.Global)
+					if !isConst && !isGlobal {
 						continue
 					}
 				}
-			}
-			if best == nil || best.Block() == b || best.Block().Dominates(b) {
-				best = dr
+				cands = append(cands, cand{b, i, x.X, x.IsAddr})
+			case *ssa.Phi:
+				if x.Comment == name {
+					if _, seen := fr.vals[x]; seen {
+						cands = append(cands, cand{b, i, x, false})
+					}
+				}
 			}
 		}
 	}
-	if best == nil {
+	if len(cands) == 0 {
 		return nil
 	}
-	v := fr.valOf(best.X)
-	if best.IsAddr {
-		lv := fr.ptrLV(v, best.X.Type())
+	best := cands[0]
+	for _, c := range cands[1:] {
+		if c.b == best.b {
+			if c.idx > best.idx {
+				best = c
+			}
+		} else if best.b.Dominates(c.b) {
+			best = c
+		}
+	}
+	v := fr.valOf(best.v)
+	if best.isAddr {
+		lv := fr.ptrLV(v, best.v.Type())
 		return &Val{t: fr.u.read(st, lv)}
 	}
 	return v
 }
-
 
 func (fr *frame) retsByPos() []retInfo {
 	rs := append([]retInfo{}, fr.rets...)
 	sort.SliceStable(rs, func(i, j int) bool { return rs[i].tpos < rs[j].tpos })
 	return rs
 }
-
 
 // emitAxioms asserts the universally quantified rules that define derived ghost predicates.
 func (u *Unit) emitAxioms(fr *frame, st *State) {
